@@ -139,7 +139,7 @@ pub fn exec_probe<M: Machine>(tr: &Trace, stats: &mut Stats, mut probe: Option<&
                 return (
                     Some(Violation::new(
                         &tr.property,
-                        "valid-delivery-rejected",
+                        if matches!(ev, Event::Merge { .. } | Event::MergeEmpty { .. }) { "merge-of-valid-states-failed" } else { "valid-delivery-rejected" },
                         info.touched.first().copied().unwrap_or(0),
                         format!("{:?} on valid data: {}", ev, out.class()),
                     )),
@@ -243,10 +243,13 @@ pub fn generate<M: Machine>(property: &str, verif_seed: u64, run: u64, size: Siz
         family = r.below(10) as u8;
     }
     if M::FAMILY == Family::Sum && r.chance(0.3) {
-        family = *r.pick(&[FAM_TINY, FAM_HUGE, FAM_VANISHING, FAM_NEAR_UNDERFLOW, FAM_NEAR_UNDERFLOW]);
+        family = *r.pick(&[FAM_TINY, FAM_HUGE, FAM_VANISHING, FAM_NEAR_UNDERFLOW, FAM_NEAR_UNDERFLOW, FAM_INT_BEYOND_MANTISSA]);
     }
     if !positive && flt != Flt::Int && r.chance(0.06) {
         family = FAM_ALTERNATING;
+    }
+    if property == "C08" && flt != Flt::Int && M::FAMILY == Family::Mean && r.chance(0.06) {
+        family = FAM_INT_BEYOND_MANTISSA;
     }
     let exact_data = family == FAM_EXACT && !positive && flt != Flt::Int;
     let max_len = match size {
@@ -307,7 +310,7 @@ pub fn generate<M: Machine>(property: &str, verif_seed: u64, run: u64, size: Siz
     let w_fork = *r.pick(&[0u32, 0, 1, 2]);
     let w_query = *r.pick(&[0u32, 1, 1, 2]);
     let knobs = json!({
-        "family": [FAMILY_NAMES[family as usize % 14], FAMILY_NAMES[fam1 as usize % 14]],
+        "family": [FAMILY_NAMES[family as usize % FAMILY_NAMES.len()], FAMILY_NAMES[fam1 as usize % FAMILY_NAMES.len()]],
         "workers": n_workers, "chunk_law": CHUNK_LAWS[chunk_law], "merge_policy": MERGE_POLICIES[merge_policy],
         "styles": styles.iter().map(|&s| M::style_name(s)).collect::<Vec<_>>(),
         "merge_ops": ops, "weights": [w_deliver, w_merge, w_empty, w_fork, w_query],
